@@ -45,23 +45,28 @@ def r1_bound(ctx):
             ctx.unanalysable('C19.R1', 'C19.R1/compile_with_bound/loop-shape', fn.path, fn.site(), None, cfg)
             continue
         its = log.of_head(h)
-        # the counter: the usize head variable that starts at 0
-        cnts = [hv for hv, ev in its[0].mapping if T.TYPES.get(hv) == 'usize' and ev == I(0)]
-        ok = len(cnts) == 1
+        # the number of states taken so far, as a function of the loop-carried counter: a usize that starts at 0 and
+        # counts up, or one that starts at max_states and counts the remaining budget down
+        ups = [hv for hv, ev in its[0].mapping if T.TYPES.get(hv) == 'usize' and ev == I(0)]
+        downs = [hv for hv, ev in its[0].mapping if T.TYPES.get(hv) == 'usize' and ev == mx]
+        ok = len(ups) + len(downs) == 1
         ctx.obligation(ok)
-        (ctx.ok if ok else ctx.violation)('C19.R1', 'C19.R1/compile_with_bound/counter-starts-at-zero', fn.path, fn.site(), {'candidates': [T.show(c) for c in cnts]}, cfg)
+        (ctx.ok if ok else ctx.violation)('C19.R1', 'C19.R1/compile_with_bound/counter-starts-at-zero', fn.path, fn.site(), {'candidates': [T.show(c) for c in ups + downs]}, cfg)
         if not ok:
             continue
-        cnt = cnts[0]
+        raw = (ups + downs)[0]
+        taken = (lambda x: x) if ups else (lambda x: T.mk_sub(mx, x))
+        cnt = taken(raw)
         for it in its:
             pops = it.named('BfsQueue::<T>::pop')
             okp = len(pops) == 1 and it.state.variants.get(calllog.call_term(pops[0])) == 1
-            okc = it.cur.get(cnt) == T.mk_add(cnt, I(1))
+            nxt = it.cur.get(raw)
+            okc = nxt is not None and (taken(nxt) == T.mk_add(cnt, I(1)) or ip.entails(it.state, eq(taken(nxt), T.mk_add(cnt, I(1)))))
             okg = ip.entails(it.state, lt(cnt, mx))
             ok = okp and okc and okg
             ctx.obligation(ok)
             (ctx.ok if ok else ctx.violation)('C19.R1', 'C19.R1/compile_with_bound/iteration-counts-one-pop-below-bound', fn.path, fn.site(),
-                                              {'one_successful_pop': okp, 'counter_after': T.show(it.cur.get(cnt)), 'counter_below_bound_on_path': okg}, cfg)
+                                              {'one_successful_pop': okp, 'counter_after': T.show(it.cur.get(raw)), 'counter_below_bound_on_path': okg}, cfg)
         kinds = set()
         for o in log.outs:
             if o.kind != 'ret':
